@@ -88,6 +88,17 @@ class Recorder(object):
             self.paths[k] = len(self.paths) + 1
         return self.paths[k]
 
+    @staticmethod
+    def rate(fr):
+        """The drift rate a frame's own bookkeeping dictionary holds (what `dedrift(frame)` without a rate uses)."""
+        md = getattr(fr, "metadata", None)
+        if not isinstance(md, dict) or "drift_rate" not in md:
+            return "none"
+        try:
+            return repr(float(md["drift_rate"]))
+        except Exception:
+            return "other"
+
     def trace(self, strict=False):
         """strict: every write to a frame's pixels went through a recorded call (true of the drivers, not of arbitrary tests)"""
         return {"h": {"nf": max(1, len(self.objs)), "np": max(1, len(self.paths)), "strict": bool(strict)}, "ev": self.events}
@@ -132,11 +143,11 @@ def copy_event(rec, parent, call, how):
         rec.depth -= 1
     ev = {"e": "Copy", "src": how, "parent": p, "st": "ok" if exc is None else type(exc).__name__, "before": pest, "dig0": _dig(pdata),
           "parent_same": bool(rec.axes_same(pa, rec.axes(parent)) and np.array_equal(pdata, parent.data) and pest == rec.est(parent)),
-          "child": 0, "child_est": {"zero": False, "m": "?", "s": "?"}, "child_dig": "?", "own_data": True,
+          "child": 0, "child_est": {"zero": False, "m": "?", "s": "?"}, "child_dig": "?", "child_rate": "none", "own_data": True,
           "eq": {"data": True, "axes": True, "est": True, "meta": True}}
     if exc is None and isinstance(ret, _frame.Frame):
         ev["child"] = rec.fid(ret)
-        ev["child_est"], ev["child_dig"] = rec.est(ret), _dig(ret.data)
+        ev["child_est"], ev["child_dig"], ev["child_rate"] = rec.est(ret), _dig(ret.data), rec.rate(ret)
         ev["own_data"] = bool(ret is not parent and not np.shares_memory(ret.data, parent.data) and not np.shares_memory(ret.fs, parent.fs)
                               and not np.shares_memory(ret.ts, parent.ts) and (pmeta is None or ret.metadata is not parent.metadata))
         ev["eq"] = {"data": bool(np.array_equal(ret.data, pdata) and ret.data.dtype == pdata.dtype),
@@ -184,7 +195,7 @@ def recording(rec):
             k = self.chi2_df
             x = self.df * self.dt
             k_ok = k in (4 * math.floor(x + 0.5), 4 * math.ceil(x - 0.5)) or k == 4 * round(x)
-            ev = {"e": "Create", "fid": rec.fid(self), "how": how, "after": rec.est(self), "dig1": _dig(self.data),
+            ev = {"e": "Create", "fid": rec.fid(self), "how": how, "after": rec.est(self), "dig1": _dig(self.data), "rate": rec.rate(self),
                   "path": 1, "gen": 0, "sig": NOSIG, "axes_close": True, "tstart_close": True, "helpers_ok": True, "exact_ok": True}
             if load is not None:
                 ev.update(load)
@@ -366,14 +377,15 @@ def recording(rec):
             return q
         return make
 
-    def derive_event(name, parent, call, axis=None):
+    def derive_event(name, parent, call, axis=None, from_meta=False):
         p = rec.fid(parent)
+        rate_seen = rec.rate(parent)
         pa = rec.axes(parent)
         pdata = np.array(parent.data, copy=True)
         pest = rec.est(parent)
         ret, exc = outer(call)
         ev = {"e": "Derive", "src": name, "parent": p, "st": "ok" if exc is None else type(exc).__name__,
-              "dig0": _dig(pdata), "child_dig": "?", "before": pest,
+              "dig0": _dig(pdata), "child_dig": "?", "before": pest, "from_meta": bool(from_meta), "rate_seen": rate_seen, "child_rate": "none",
               "parent_same": bool(rec.axes_same(pa, rec.axes(parent)) and np.array_equal(pdata, parent.data) and pest == rec.est(parent)),
               "child": 0, "keeps": {"asc": True, "df": True, "dt": True, "t_start": True, "source": True, "rows": True}, "own_data": True,
               "child_est": {"zero": False, "m": "?", "s": "?"}}
@@ -387,6 +399,7 @@ def recording(rec):
             ev["own_data"] = bool(not np.shares_memory(ret.data, parent.data))
             ev["child_est"] = rec.est(ret)
             ev["child_dig"] = _dig(ret.data)
+            ev["child_rate"] = rec.rate(ret)
         rec.events.append(ev)
         if exc is not None:
             raise exc
@@ -405,7 +418,7 @@ def recording(rec):
             g = _args(orig, a, kw)
             if rec.depth > 0 or g is None or not isinstance(g.get("fr"), F):
                 return orig(*a, **kw)
-            return derive_event("dedrift", g["fr"], lambda: orig(*a, **kw))
+            return derive_event("dedrift", g["fr"], lambda: orig(*a, **kw), from_meta=g.get("drift_rate") is None)
         return dedrift
 
     def mk_integrate(orig):
@@ -450,7 +463,7 @@ def recording(rec):
                 raise exc
             k = rec.pkey(filename)
             gen, fmt, ax, data, est, meta = rec.snap.get(k, (0, "?", None, None, None, None))
-            ev = {"e": "Create", "fid": rec.fid(ret), "how": "pickle", "after": rec.est(ret), "dig1": _dig(ret.data), "path": k, "gen": gen,
+            ev = {"e": "Create", "fid": rec.fid(ret), "how": "pickle", "after": rec.est(ret), "dig1": _dig(ret.data), "path": k, "gen": gen, "rate": rec.rate(ret),
                   "sig": _sig(ret, fmt if fmt == "pickle" else "?"), "axes_close": True, "tstart_close": True, "helpers_ok": True,
                   "exact_ok": True, "data_zero": bool(not np.any(ret.data)), "k_ok": True, "axes_ok": True}
             if fmt == "pickle":
@@ -459,6 +472,20 @@ def recording(rec):
             rec.events.append(ev)
             return ret
         return classmethod(load_pickle)
+
+    def mk_meta(name):
+        def make(orig):
+            def meta(self, *a, **kw):
+                if rec.depth > 0:
+                    return orig(self, *a, **kw)
+                ret, exc = outer(lambda: orig(self, *a, **kw))
+                rec.events.append({"e": "Meta", "src": name, "fid": rec.fid(self), "st": "ok" if exc is None else type(exc).__name__,
+                                   "rate": rec.rate(self)})
+                if exc is not None:
+                    raise exc
+                return ret
+            return meta
+        return make
 
     def mk_copy(orig):
         def copy(self):
@@ -483,6 +510,8 @@ def recording(rec):
         patch(F, "save_npy", mk_save("npy"))
         patch(F, "load_pickle", mk_load_pickle)
         patch(F, "copy", mk_copy)
+        patch(F, "add_metadata", mk_meta("add_metadata"))
+        patch(F, "update_metadata", mk_meta("update_metadata"))
         patch(F, "get_intensity", mk_snr("get_intensity"))
         patch(F, "get_snr", mk_snr("get_snr"))
         patch(m_slice, "get_slice", mk_slice)
